@@ -239,3 +239,45 @@ func VxH_C04_initial_computed() {
 	vx.Reach("recomputed")
 	vx.Assert("undeclared-equals-declared-initial-value", vx.DeepEqual(v1, v2))
 }
+
+// font-size: smaller / larger step to the adjacent entry of the keyword table (xx-small ..
+// xx-large = 3/5, 3/4, 8/9, 1, 6/5, 3/2, 2 of 16px) when the parent's size lies within the
+// table, and always change the size in the direction they name.
+func VxH_C04_font_size_steps() {
+	root, body := vxDoc()
+	P := pr.Float(vx.F32("parent-font-size"))
+	vx.Assume(vx.And(P >= 1, P <= 100))
+	kw := []string{"smaller", "larger"}[vx.Choose("keyword", 2)]
+	m := matcher{
+		vxRule("html", vxDecl(pr.PFontSize, vxLen(P, pr.Px))),
+		vxRule("body", vxDecl(pr.PFontSize, pr.DimOrS{S: kw})),
+	}
+	sf := newStyleFor(&HTML{Root: root}, []sheet{{origin: "author", sheet: CSS{matcher: m}}}, false, nil, nil)
+	got := sf.Get(body, "").GetFontSize().Value
+	vx.Reach("computed")
+	table := []pr.Float{16 * 3 / 5., 16 * 3 / 4., 16 * 8 / 9., 16, 16 * 6 / 5., 16 * 3 / 2., 32}
+	if kw == "smaller" {
+		vx.Assert("smaller-is-smaller", got < P)
+		// the largest table entry below the parent's size
+		for i := len(table) - 1; i >= 0; i-- {
+			if table[i] < P {
+				if i+1 < len(table) && P <= table[i+1] {
+					vx.Reach("within-table")
+					vx.Assert("smaller-steps-to-the-entry-below", vx.ApproxEq(float64(got), float64(table[i])))
+				}
+				break
+			}
+		}
+	} else {
+		vx.Assert("larger-is-larger", got > P)
+		for i := 0; i < len(table); i++ {
+			if table[i] > P {
+				if i > 0 && P >= table[i-1] {
+					vx.Reach("within-table")
+					vx.Assert("larger-steps-to-the-entry-above", vx.ApproxEq(float64(got), float64(table[i])))
+				}
+				break
+			}
+		}
+	}
+}
